@@ -97,13 +97,26 @@ def seeds_constructed(ctx, effs, fm, drop_fresh_children=False):
     return seeds
 
 
-def appended_is_fresh_child(e, effs):
-    """the appended value is a freshly constructed child region (column creation), not content"""
-    vals = []
+BULK_APPENDS = ("extend", "extend_from_slice", "append")
+
+
+def appended_values(e):
+    """(ctx, origin) of what an append-class effect stores: the argument itself for push-like
+    calls, the *elements* of the argument for bulk appends (`extend(iter)`: what the iterator
+    yields -- for `iter.map(f)` that is what f returns)"""
+    out = []
+    bulk = e.tag[1] in BULK_APPENDS
     for os_ in (e.argorigins or [])[1:]:
         for o in os_:
-            for (c2, o2) in base_places(e.ctx, o):
-                vals.append(fresh_value(c2, o2, effs))
+            o2 = (o[0], tuple(o[1]) + ("[]",)) if bulk else o
+            for (c2, o3) in base_places(e.ctx, o2):
+                out.append((c2, o3))
+    return out
+
+
+def appended_is_fresh_child(e, effs):
+    """the appended value is a freshly constructed child region (column creation), not content"""
+    vals = [fresh_value(c2, o2, effs) for (c2, o2) in appended_values(e)]
     return bool(vals) and all(v[0] and ("merge_regions" in v[1] or "Default::default" in v[1] or
                                         "with_capacity" in v[1]) for v in vals)
 
@@ -379,11 +392,7 @@ def r_fresh(F, R, cat=None, only=None):
                         fr = field_of_target(ctx, t, fm)
                         if fr is None:
                             continue
-                        vals = []
-                        for os_ in (e.argorigins or [])[1:]:
-                            for o in os_:
-                                for (c2, o2) in base_places(e.ctx, o):
-                                    vals.append(fresh_value(c2, o2, effs))
+                        vals = [fresh_value(c2, o2, effs) for (c2, o2) in appended_values(e)]
                         ok = e.cls == "append" and all(v[0] for v in vals)
                         R.check("R-FRESH", b.label(), ok,
                                 construct="%s into field %s" % (e.tag[1], fr[0]), where=e.where(),
@@ -467,6 +476,27 @@ def r_reserve_only(F, R, cat=None):
 # R-CLONE
 
 
+def copy_tree(t, key, path):
+    """t denotes a copy of self.<path>: the place itself (clone()/copied() are transparent in
+    trees), or an enum/struct aggregate rebuilt from copies of the same variant's payload"""
+    if t[0] == "place":
+        return t[1] == key and t[2] == ("arg", 1) and tuple(t[3]) == tuple(path)
+    if t[0] == "phi":
+        # a payload-free variant (`None => None`) is a copy only next to alternatives that copy
+        # the payload-carrying variants of the same field
+        unit = [a for a in t[1] if a[0] == "agg" and not a[2]]
+        rest = [a for a in t[1] if a not in unit]
+        return bool(rest) and all(copy_tree(a, key, path) for a in rest)
+    if t[0] == "agg" and "::" in str(t[1]) and not str(t[1]).startswith("closure:"):
+        if not t[2]:
+            return False  # a constant variant on its own copies nothing
+        variant = str(t[1]).split("::")[-1]
+        return all(copy_tree(op, key, tuple(path) + ("v:" + variant, "f:%d" % i)) or
+                   copy_tree(op, key, tuple(path) + ("f:%d" % i,))
+                   for i, op in enumerate(t[2]))
+    return False
+
+
 def r_clone(F, R, cat=None, only=None):
     cat = cat or Catalogue(F)
     n_clone = 0
@@ -521,6 +551,12 @@ def r_clone(F, R, cat=None, only=None):
                                                             [describe(ctx, s) for s in src]))
                                 break
                         else:
+                            # rebuilt variant by variant (`match &self.f { Ok(x) => Ok(x.clone()), .. }`)
+                            from expr import tree as _tree
+                            if copy_tree(_tree(ctx, o), b.key, ("f:" + f,)):
+                                ok = True
+                                why.append("structural copy of self." + f)
+                                continue
                             ok = False
                             why.append("from " + describe(ctx, o))
                             break
